@@ -128,12 +128,6 @@ inductive Agg
   | str (fields : Env)
   deriving Repr, Inhabited
 
-/-- Declaration of an aggregate PROGRAM variable. -/
-inductive AggDecl
-  | arr (lo hi : Int) (elem : Ty)
-  | str (tyName : String) (fields : List (String × Ty))
-  deriving Repr, Inhabited
-
 structure XProgram where
   name : String := "P"
   funcs : List FuncDef
@@ -182,15 +176,9 @@ def getAgg (σ : XStore) (a : String) : Option Agg := (σ.aggs.find? (fun p => p
 def setAgg (σ : XStore) (a : String) (v : Agg) : XStore :=
   { σ with aggs := σ.aggs.map fun p => if p.1 = a then (p.1, v) else p }
 
-/-- `eval/expr/access.rs: index_to_i64` — ULINT is cast with `as i64`. -/
-def indexToI64 : Val → M Int
-  | .i .ulint x => pure (if x ≤ i64Max then x else x - 18446744073709551616)
-  | .i _ x => pure x
-  | .b _ => fault .TypeMismatch .indexNotInt
-
 /-- `array_offset` for one dimension: bounds check, then the offset. -/
 def arrayOffset (lo hi : Int) (iv : Val) : M Nat := do
-  let n ← indexToI64 iv
+  let n ← indexToI64 .real iv
   if n < lo ∨ n > hi then fault .IndexOutOfBounds .indexBounds else pure (n - lo).toNat
 
 def instVars (σ : XStore) (c : String) : Option Env :=
@@ -428,7 +416,8 @@ def initLocals (ds : Defs) : Nat → Ctl → XStore → List Local → XRes Unit
 def callFunction (ds : Defs) : Nat → Ctl → XStore → FuncDef → XArgs → XRes Val
   | 0, _, σ, _, _ => (σ, xtimeout)
   | fuel + 1, ctl, σ, fd, args =>
-    let positional := args.allPositional
+    -- `!args.is_empty() && args.iter().all(|arg| arg.name.is_none())` (d406d2d)
+    let positional := decide (args.length ≠ 0) && args.allPositional
     if positional ∧ args.length ≠ fd.params.length then
       (σ, fault .InvalidArgumentCount .callArgCount)
     else
@@ -468,7 +457,7 @@ written in the caller's context after the pop. -/
 def callFb (ds : Defs) : Nat → Ctl → XStore → String → FbDef → XArgs → XRes XFlow
   | 0, _, σ, _, _, _ => (σ, xtimeout)
   | fuel + 1, ctl, σ, c, fb, args =>
-    let positional := args.allPositional
+    let positional := decide (args.length ≠ 0) && args.allPositional
     if positional ∧ args.length ≠ fb.params.length then
       (σ, fault .InvalidArgumentCount .callArgCount)
     else
@@ -698,6 +687,7 @@ def xcycle (p : XProgram) (fuel : Nat) (st : XRunState) : XRunState × CycleOut 
   let σ2 := popFrame σ1
   match r with
   | .ok .cont => ({ store := σ2, faulted := false }, none)
+  | .ok (.ret _) => ({ store := σ2, faulted := false }, none)      -- f3b5b76
   | .ok _ => ({ store := σ2, faulted := true }, some (.fault .InvalidControlFlow .programFlow))
   | .error s => ({ store := σ2, faulted := true }, some s)
 
